@@ -200,9 +200,10 @@ def build_items(prop, tier, rnd):
     if prop == "C07":
         for m in I.stop_rule_instances(tier):
             items.append((m, "tree", big))
-    if prop == "C05":
+    if prop in ("C05", "C06"):
         for m in I.chem_instances(tier):
             items.append((m, "tree", big))
+    if prop == "C05":
         # the same molecules built element by element through the public API, intermediate results read in between
         for m in core:
             if len(m.elems) >= 2 and not m.name.startswith("neg"):
